@@ -219,8 +219,8 @@ def wrapper(func, how):
         if ann is bool or isinstance(r, (bool, np.bool_)):
             return not r
         if isinstance(r, np.ndarray):
-            return np.logical_not(r) if r.dtype.kind == "b" else r + 1
-        return r + 1
+            return np.logical_not(r) if r.dtype.kind == "b" else r + 1000
+        return r + 1000
 
     w.__signature__ = inspect.signature(func)
     if hasattr(func, "__info__"):
@@ -271,7 +271,9 @@ def task_functions(arg):
                     out.violation(f"function:perturbed:{n}:changes-unrelated:{c}", {**case, "column": c},
                                   f"replacing {n} on {date_iso} changes {c} ({d[c][0]}: {d[c][1]}), which is not a descendant of {n}")
                 if n not in d:
-                    out.count("perturbed_rule_without_effect")
+                    # the replacement returns the rule's value + 1000 (or its negation): the column must differ from the baseline
+                    out.violation(f"function:replacement-has-no-effect:{n}", case,
+                                  f"rule {n} was replaced by a user function returning its value + 1000 / its negation on {date_iso}, but column {n} is unchanged")
                 out.outcome(("perturbed", n in d))
             else:
                 for c in sorted(d):
